@@ -1,15 +1,18 @@
 //! Entry points for C06 and C07 (hand-written family histories; the generated-program half of
 //! both properties lives in the progbatch engine).
-use crate::fam;
+use crate::{boxes, fam};
 use verifkit::Ctx;
 
 pub fn run(ctx: &Ctx, prop: &'static str) -> i32 {
     ctx.run("family-histories", ctx.n(5_000, 150_000), fam::strategy(), |c| fam::check(ctx, prop, c));
+    if prop == "C06" {
+        ctx.run("boxes", ctx.n(20_000, 400_000), boxes::strategy(), boxes::check);
+    }
     if prop == "C07" {
         ctx.run("last-holder", ctx.n(120, 5_000), fam::last_holder_strategy(), |c| fam::check(ctx, prop, c));
     }
     let rule = if prop == "C06" {
-        "histories over a pool of opaque objects of a hand-written three-level trait family (root with owned/borrowed/mutably-borrowed wrapped returns as objects and groups, consuming->wrapped and consuming->scalar methods, mid level, leaf level, Clone) sharing one CArc context: {create object/group, call, obtain owned child object/group, obtain borrowed child, clone via the group's Clone, cast + upcast, into (final form) + use, consuming calls, drop} with a generated final drop order; every payload owns a heap token. Oracle: each token dropped exactly once by the end, allocation window balanced with matching layouts. Non-trivial = the history contains an ownership transfer beyond create/drop"
+        "histories over a pool of opaque objects of a hand-written three-level trait family (root with owned/borrowed/mutably-borrowed wrapped returns as objects and groups, consuming->wrapped and consuming->scalar methods, mid level, leaf level, Clone) sharing one CArc context: {create object/group, call, obtain owned child object/group, obtain borrowed child, clone via the group's Clone, cast + upcast, into (final form) + use, consuming calls, drop} with a generated final drop order; every payload owns a heap token. plus histories over CBox / CSliceBox values (heap-owning, zero-sized droppable and plain payloads, empty and non-empty slices, three constructors, into_opaque, access, drop in generated order). Oracle: each token dropped exactly once by the end, allocation window balanced with matching layouts. Non-trivial = the history contains an ownership transfer beyond create/drop"
     } else {
         "same family and histories; after EVERY step the context's strong count (observed through a Weak) must equal: harness reference + number of live objects carrying the context, and it returns to the start value when all derived objects are gone, in every drop order; dedicated histories end with a consuming call on the object that holds the last context reference, where the payload's Drop captures a backtrace that must not contain the C-side wrapper frame (the context may only be released after control has returned to the caller). Non-trivial = a derived object outlives its parent, or a derived object was obtained, or a consuming call was made on the last holder"
     };
